@@ -519,7 +519,8 @@ def check_optwalk(spec):
                 res.fail(f"optwalk:{tag}:raised:{type(exc).__name__}", f"{e!r}: {exc!r}")
                 break
             visited = Counter((c[1], c[2]) for c in O.CALLS)
-            want = {(type(n).__name__, repr(n)) for _, n in walk.occurrences(e)}
+            want = {(type(n).__name__, repr(walk.key(n, strict=True)))
+                    for _, n in walk.occurrences(e)}
             new = want - seen_total
             if memo:
                 if set(visited) != new or (visited and max(visited.values()) > 1):
